@@ -460,3 +460,13 @@ package txpool
 //@   precall mainQueueScheduler\)\.forward$ :: argIs(0, tx.sender) && int(argAs[uint64](1)) == int(tx.seq) + 1
 //@   ensures-local ok ==> GForward >= old(GForward) + 1 || tx.seq == 18446744073709551615
 //@   note a used transaction moves its sender's current sequence number to the one AFTER it (so the successor becomes schedulable and a transaction reusing the sequence number is expired); forward's own preconditions (heap well-formedness after delete) are assumed here
+
+// ---- the queue's entry point (C20): the sender's STATE sequence number reaches the scheduler ----
+
+//@ func mainQueue.Add
+//@   props C20
+//@   requires q != nil && q.scheduler != nil && tx != nil && meta != nil
+//@   assume-pre txpool\.mainQueueScheduler\.(add|forward)$
+//@   precall txpool\.mainQueueScheduler\)\.forward$ :: argIs(1, meta.SenderStateSeq)
+//@   precall txpool\.mainQueueScheduler\)\.add$ :: argIs(1, meta.SenderStateSeq)
+//@   note the scheduler is told the sender's sequence number IN THE RUNTIME STATE (what the next executable transaction must carry) - for forwarding the sender and as the starting point of a sender that is new to the pool -, not the sequence number of the transaction being added: a new sender whose first transaction lies behind a gap must wait for the gap to fill, and the gap-filling transactions must not be rejected as expired (seed C20_k passed the transaction's own number to add)
